@@ -13,6 +13,10 @@ unchanged afterwards (argument-unchanged[record]).
 Relations between executions (checked by the driver on the returned values): object == array level, linearity,
 trailing zeros that keep N, round trip record -> spectrum -> inverse helper, results held from a first record intact
 after a second record of the same shape went through the same paths (back-to-back.first-result-intact).
+Round 3 (checklist items 22-27): histories with copy.copy / copy.deepcopy / pickle round trips in every cache state
+(copy-protocol.*), assignment through every public attribute name (after-assignment.*), operations that raise or that
+silently make the record non-finite (after-raise.*, non-finite-record.spectrum-of-current-values), f(A); f(B); f(A) at
+non-default options with B of the same and of another shape (aba.third==first, bit for bit).
 """
 import copy
 import pickle
@@ -69,7 +73,25 @@ RULE = ('case = (record, dt, Signal|AccSignal, p2_plus, explicit n); each case r
         'None/(t0,t1)/(t0,None), set_zero_residual_displacement, set_zero_residual_displacement_and_velocity '
         'None/(t0,t1)/(t0,None), correct_me), interaction steps fas2values / fas2signal(stype signal|acc) on the very '
         'array sig.fa_spectrum returns (record with a clearly non-zero mean) - each followed by reads under the lazy '
-        'monitor; records >= 64 samples for filters and baseline corrections.')
+        'monitor; records >= 64 samples for filters and baseline corrections. '
+        'Round 3: (22) histories on a Signal / AccSignal / eqsig.Cluster member: cache state cold | spectrum read | smoothed '
+        'spectrum | velocity+displacement | peaks | response spectra | Stockwell memo | all of them (optionally after '
+        'gen_fa_spectrum with non-default options) -> copy.copy | copy.deepcopy | pickle round trip (default and explicit '
+        'protocols) -> reads, explicit regenerations, array-level calls and mutators on the copy AND on the original, copy '
+        'first or original first (after copy.copy only the rebinding operations reset_values / add_constant; in-place '
+        'corrections rebase_displacement, remove_rolling_average, set_zero_residual_* after deepcopy / pickle); (23) setattr '
+        'through values, dt, npts, time, label, smooth_fa_freqs, smooth_fa_frequencies, response_times, fa_spectrum, fa_freqs, '
+        'smooth_freq_range, smooth_freq_points, ccbox with list / tuple / ndarray values of 1, 2, 3, npts/2, npts, npts+1, '
+        '2 npts+3 entries on a cold or warm object, then every entry point in random order, then a mutator and reads; (24) one '
+        'or two refused operations (add_series longer / shorter, add_signal other dt / other length / not a signal, butter_pass '
+        'with 3 corners / scalar / reversed / above Nyquist / (None, None) / record too short, reset_values ragged, remove_poly '
+        '-1, remove_average / running_average / add_constant with a string, add_constant of the wrong shape, AccSignal '
+        'remove_rolling_average too high, set_zero_residual_* with an unsupported timezone) or a silently accepted non-finite '
+        'update (reset_values / add_constant / add_series with NaN or inf), then every entry point, then a reset to a finite '
+        'record and reads; (25) f(A); f(B); f(A) for six of the eleven entry points per case at p2_plus 1..3 and an explicit n, '
+        'B of the same / shorter / longer / half / double / +1 length and the same or another dt; (26) butter_pass corners '
+        'within 1 % of the Nyquist frequency and below 1e-3 of it, explicit n 17..64 times the record length; (27) silent '
+        '(all-zero) and strictly positive records in every container form, tuples for reset_values.')
 ASSUMPTIONS = ['finite 1-D record of length >= 2, real or - as returned by the library\'s own fas2signal - complex (judged against '
                'the DFT of the complex values; Parseval only for real records); one-sample and float16 records: counted, not '
                'judged; dt > 0 finite',
@@ -92,7 +114,16 @@ ASSUMPTIONS = ['finite 1-D record of length >= 2, real or - as returned by the l
                'dt 1e-9..1e3, spikes up to 1e12 x the rest); a bin is a global sum, so no local scale exists for it',
                'Parseval is judged only while the squares of the samples are normal doubles (1e-150 <= |x| <= 1e150); every '
                'other clause is linear or scale-free in the record and is judged at the extreme scales too',
-               'oracle vf/oracles/dft.py is correct (direct sum with integer phase reduction; self-test at start-up)']
+               'oracle vf/oracles/dft.py is correct (direct sum with integer phase reduction; self-test at start-up)',
+               'a record that holds NaN / inf (the library accepts it silently) has no finite spectrum: judged only for the '
+               'number of bins, the frequency grid and "every reported bin is non-finite" (each term of the direct sum contains '
+               'the non-finite sample) - a finite bin is the spectrum of an earlier record',
+               'copies made by copy.copy / copy.deepcopy / pickle carry the spectrum memo of their source (N of the last explicit '
+               'generation) or regenerate with the defaults on the first read - both accepted; after copy.copy only operations '
+               'that bind a new value buffer are driven while the two objects share it',
+               'an assignment through a public name is judged through what the object then reports: every spectrum is that of '
+               'its CURRENT .values / .dt / len(values); whether the assignment is accepted, ignored or refused is counted only',
+               'aba.third==first is bit-for-bit: the same NumPy routines on the same bits in one process are deterministic']
 MIN_EVALS = {   # about half of what a normal run reaches
     'quick': {'gen_fa_spectrum.bins==dt*DFT': 2500, 'lazy.bins==dt*DFT': 7000,
               'generate_fa_spectrum.bins==dt*DFT': 1200, 'calc_fa_spectrum.bins==dt*DFT': 2400,
@@ -107,8 +138,14 @@ MIN_EVALS = {   # about half of what a normal run reaches
               'max_fa_period==1/f[argmax|F|]': 1000, 'lazy-after-mutation.bins==dt*DFT(current values)': 250,
               'lazy-after-mutation.nbins==N//2': 250, 'lazy-after-mutation.freqs==k/(N*dt)': 250,
               'fas2values.argument-unchanged': 1600, 'fas2signal.argument-unchanged': 500,
-              'argument-unchanged[record]': 20000, 'back-to-back.first-result-intact': 250,
-              'fas2signal-object.spectrum==source-bins': 170, 'signal-argument.public-state-unchanged': 20000},
+              'argument-unchanged[record]': 20000, 'back-to-back.first-result-intact': 800,
+              'fas2signal-object.spectrum==source-bins': 170, 'signal-argument.public-state-unchanged': 20000,
+              'copy-protocol.nbins==N//2': 4500, 'copy-protocol.bins==dt*DFT(own current values)': 4500,
+              'copy-protocol.freqs==k/(N*dt)': 4500, 'after-assignment.nbins==N//2': 1100,
+              'after-assignment.bins==dt*DFT(own current values)': 1100, 'after-assignment.freqs==k/(N*dt)': 1100,
+              'after-raise.nbins==N//2': 1600, 'after-raise.bins==dt*DFT(own current values)': 1600,
+              'after-raise.freqs==k/(N*dt)': 1600, 'non-finite-record.spectrum-of-current-values': 400,
+              'aba.third==first': 1100},
     'thorough': {'gen_fa_spectrum.bins==dt*DFT': 9500, 'lazy.bins==dt*DFT': 27000,
                  'generate_fa_spectrum.bins==dt*DFT': 4500, 'calc_fa_spectrum.bins==dt*DFT': 9000,
                  'gen_fa_spectrum.nbins==N//2': 9500, 'lazy.nbins==N//2': 27000,
@@ -122,8 +159,14 @@ MIN_EVALS = {   # about half of what a normal run reaches
                  'max_fa_period==1/f[argmax|F|]': 4000, 'lazy-after-mutation.bins==dt*DFT(current values)': 1600,
                  'lazy-after-mutation.nbins==N//2': 1600, 'lazy-after-mutation.freqs==k/(N*dt)': 1600,
                  'fas2values.argument-unchanged': 6000, 'fas2signal.argument-unchanged': 2000,
-                 'argument-unchanged[record]': 90000, 'back-to-back.first-result-intact': 1000,
-                 'fas2signal-object.spectrum==source-bins': 1000, 'signal-argument.public-state-unchanged': 90000}}
+                 'argument-unchanged[record]': 90000, 'back-to-back.first-result-intact': 6000,
+                 'fas2signal-object.spectrum==source-bins': 1000, 'signal-argument.public-state-unchanged': 90000,
+                 'copy-protocol.nbins==N//2': 36000, 'copy-protocol.bins==dt*DFT(own current values)': 36000,
+                 'copy-protocol.freqs==k/(N*dt)': 36000, 'after-assignment.nbins==N//2': 9000,
+                 'after-assignment.bins==dt*DFT(own current values)': 9000, 'after-assignment.freqs==k/(N*dt)': 9000,
+                 'after-raise.nbins==N//2': 13000, 'after-raise.bins==dt*DFT(own current values)': 13000,
+                 'after-raise.freqs==k/(N*dt)': 13000, 'non-finite-record.spectrum-of-current-values': 3500,
+                 'aba.third==first': 9000}}
 EXHAUSTIVE = {'quick': 'every record length 2..130 (4 records each) through every entry point; every 2^e-1, 2^e, 2^e+1, e=3..11',
               'thorough': 'every record length 2..130 (12 records each) through every entry point; every 2^e-1, 2^e, 2^e+1, e=3..12'}
 
